@@ -217,6 +217,12 @@ def _interproc(prog: Program, site: partial.Site) -> Optional[str]:
     lower_local = nonneg(prog).expr(idx, fi) or \
         (isinstance(idx, ast.Constant) and isinstance(idx.value, int)
          and idx.value >= 0)
+    if not lower_local:
+        # ... or by a guard in front of the site itself (`if i > 0:` before
+        # `x[i - 1]` in a helper that received x and i)
+        lin = linear(idx)
+        lower_local = lin is not None and partial.ge0(
+            partial._xfacts(site.node, fi), lin) is not None
     why = prove_at_callers(prog, fi, [cont, idx],
                            _local_proof_factory(prog, site,
                                                 not lower_local))
